@@ -56,7 +56,7 @@ func (fun *Progn) adjoin(b []byte) []byte {
 	b = append(b, "(progn"...)
 	offset := fun.x + 2
 	for _, n := range fun.children {
-		b = append(b, indent[:offset+1]...)
+		b = newlineIndent(b, offset)
 		b = n.adjoin(b)
 	}
 	return append(b, ')')
